@@ -341,7 +341,8 @@ fn huge(ctx: &Ctx, nlay: &std::sync::atomic::AtomicU64) {
                         .into_iter()
                         .chain(EXT.iter().cloned())
                         .collect();
-                    check_queries_huge(ctx, &m, &l, &addrs, &lens);
+                    let describe = || ("C02/mmap-raw-huge/query".to_string(), format!("layout {}", l.describe()), json!({"impl": "mmap-raw-huge", "layout": l.regs}));
+                    crate::crash::guarded(ctx, &describe, || check_queries_huge(ctx, &m, &l, &addrs, &lens));
                     nlay.fetch_add(1, std::sync::atomic::Ordering::Relaxed);
                 }
             }
